@@ -12,7 +12,7 @@ use serde_json::{json, Map, Value};
 
 const STREAM: u64 = 8;
 
-pub const DEVIATIONS: [&str; 27] = [
+pub const DEVIATIONS: [&str; 29] = [
     "none",
     "member-arity",
     "member-nonarray",
@@ -39,6 +39,8 @@ pub const DEVIATIONS: [&str; 27] = [
     "top-_sd_alg-nonstring",
     "top-_sd_alg-absent",
     "disclosure-not-json",
+    "digest-decorated-in-sd",
+    "digest-decorated-in-array",
     "compose",
 ];
 
@@ -48,9 +50,9 @@ pub fn run(ctx: &Ctx) -> Report {
     let mut rep = Report::new(
         "fault_enumeration",
         "case i: a (payload, disclosures) pair produced by the harness's own encoder (nested objects/arrays depth<=3, hidden members and \
-         elements with present or withheld disclosures, decoys), with deviation kind i%27 forced at a random eligible site (kind \
+         elements with present or withheld disclosures, decoys), with deviation kind i%29 forced at a random eligible site (kind \
          'compose': 2-3 random deviations; 'none': well-formed control that must be accepted), signed with the test issuer key \
-         (alg=(i/27)%3), format=(i/81)%2. Oracle: specification verifier Spec (draft-07 §6.1). evaluations = tokens verified. \
+         (alg=(i/29)%3), format=(i/87)%2. Oracle: specification verifier Spec (draft-07 §6.1). evaluations = tokens verified. \
          Distinct = (payload shape, deviation set, format, alg); non-trivial = at least one deviation applied or >=1 referenced \
          disclosure.",
         local,
@@ -168,7 +170,16 @@ impl<'a> B<'a> {
                 if present {
                     self.discs.push(d);
                 }
-                sd.push(json!(h));
+                if present && self.dev("digest-decorated-in-sd") {
+                    // not the digest of any disclosure: padding, blanks, case, a second copy decorated
+                    let deco = match self.r.below(5) { 0 => format!("{h}="), 1 => format!("{h}=="), 2 => format!(" {h}"), 3 => format!("{h} "), _ => h.to_uppercase() };
+                    if self.r.chance(50) {
+                        sd.push(json!(h));
+                    }
+                    sd.push(json!(deco));
+                } else {
+                    sd.push(json!(h));
+                }
             } else {
                 m.insert(k, v);
             }
@@ -246,6 +257,12 @@ impl<'a> B<'a> {
                     out.push(json!({"...": h, "x": 1}));
                 } else if self.dev("placeholder-nonstring") {
                     out.push(self.r.pick(&[json!({"...": 5}), json!({"...": null}), json!({"...": ["x"]})]).clone());
+                } else if present && self.dev("digest-decorated-in-array") {
+                    let deco = match self.r.below(4) { 0 => format!("{h}="), 1 => format!(" {h}"), 2 => format!("{h}\n"), _ => h.to_lowercase() };
+                    if self.r.chance(50) {
+                        out.push(json!({ "...": h }));
+                    }
+                    out.push(json!({ "...": deco }));
                 } else {
                     out.push(json!({ "...": h }));
                 }
@@ -283,9 +300,9 @@ fn shape(v: &Value) -> u64 {
 
 fn one_case(ctx: &Ctx, case: u64, l: &mut Local) {
     let mut r = Rng::for_case(ctx.seed, STREAM, case);
-    let force = DEVIATIONS[(case % 27) as usize];
-    let alg = ALL_ALGS[((case / 27) % 3) as usize];
-    let fmt = FMTS[((case / 81) % 2) as usize];
+    let force = DEVIATIONS[(case % 29) as usize];
+    let alg = ALL_ALGS[((case / 29) % 3) as usize];
+    let fmt = FMTS[((case / 87) % 2) as usize];
     let mut b = B {
         r: &mut r,
         discs: vec![],
@@ -348,7 +365,7 @@ fn one_case(ctx: &Ctx, case: u64, l: &mut Local) {
         disclosures: discs.clone(),
         kb: None,
     };
-    let pres = match parts.encode(fmt, case / 162) {
+    let pres = match parts.encode(fmt, case / 174) {
         Some(p) => p,
         None => return,
     };
